@@ -396,6 +396,7 @@ def ref_eval(node: Node, direction: str, x, c=None, with_ld=True, trace: Trace |
             y, ld = (o.transform_and_log_det if d == "fwd" else o.inverse_and_log_det)(jnp.asarray(xx), cc)
             if tr is not None and np.isfinite(float(ld)):
                 tr.max_ld_per_elem = max(tr.max_ld_per_elem, abs(float(ld)) / max(1, np.asarray(xx).size))
+                tr.max_ld_leaf = max(getattr(tr, "max_ld_leaf", 0.0), abs(float(ld)))
             return np.asarray(y), float(ld)
         y = (o.transform if d == "fwd" else o.inverse)(jnp.asarray(xx), cc)
         return np.asarray(y), None
